@@ -41,10 +41,13 @@ META = {
     'assumptions': ['conn.sendMessage sends one message'],
     'decided': ['D1 reply count on all paths', 'D2 addressing',
                 'D3 guards dominate the dispatch; errback after callback',
-                'D4 error names', 'D5 the no-reply flag is real'],
-    'undecided': ['method binding inside executeMethod (dbus_<name>, '
-                  'decorator cache, dbusCaller)', 'value encoding under the '
-                  'declared return signature'],
+                'D4 error names', 'D5 the no-reply flag is real',
+                'D6 binding: the cache lookup searches every class of the '
+                'MRO; executeMethod invokes the bound implementation exactly '
+                'once with the decoded arguments (and the caller iff asked)'],
+    'undecided': ['which Python callable a name resolves to at run time '
+                  '(class layout of user objects)', 'value encoding under '
+                  'the declared return signature'],
 }
 
 REPLY_CLASSES = ('message.MethodReturnMessage', 'message.ErrorMessage')
@@ -302,6 +305,7 @@ def run(ctx):
                                'exception\'s dbusErrorName or %s<Class>; '
                                'is %s' % (spec.ERR_PY_PREFIX,
                                           term_str(en)[:80]))
+    binding_rules(ctx)
     # D5 ------------------------------------------------------------------------
     from . import c03
     sub = _Sub(ctx, 'C10.D5')
@@ -311,6 +315,7 @@ def run(ctx):
     ctx.floor('C10.D3', 6)
     ctx.floor('C10.D4', 4)
     ctx.floor('C10.D5', 1)
+    ctx.floor('C10.D6', 6)
 
 
 class _Sub:
@@ -397,3 +402,111 @@ def _expected_error(p, msg):
     return {'unknown-object': spec.ERR_UNKNOWN_OBJECT,
             'unknown-method': spec.ERR_UNKNOWN_METHOD,
             'invalid-args': spec.ERR_INVALID_ARGS}.get(tag)
+
+
+def lookup_continues(ctx, rule, qn, key_param_index):
+    """A lookup over the per-class caches must keep searching later classes
+    when the key is missing: every return from inside the loop returns a
+    value whose presence was established (key in d) on that path."""
+    prog = ctx.prog
+    fi = prog.func(qn)
+    key = ('param', fi.params()[key_param_index])
+    it = Interp(prog, exc_edges=False)
+    n = 0
+    for p in it.run(fi):
+        for ev in p.trace:
+            if ev[0] != 'loop':
+                continue
+            for bp, lev in _all_body_paths(ev):
+                if bp.outcome != 'return':
+                    continue
+                n += 1
+                v = bp.value
+                found = False
+                for c, pol in bp.cond:
+                    if kind(c) == 'cmp' and c[1] == 'in' and pol and \
+                            c[2] == key and kind(v) == 'sub' and \
+                            v[1] == c[3] and v[2] == key:
+                        found = True
+                    if kind(c) == 'cmp' and c[3] == NONE and c[2] == v and \
+                            ((c[1] == 'is') != pol):
+                        found = True
+                if v in bp.state.truthy:
+                    found = True
+                ctx.ob(rule, qn, 'return-only-when-found', found,
+                       'the search over the per-class caches returns %s from '
+                       'inside the loop without having established that the '
+                       'key is present: a definition on a later (base) class '
+                       'is never reached' % term_str(v)[:80])
+    if n == 0:
+        ctx.ob(rule, qn, 'return-only-when-found', False,
+               'no lookup loop with a return found in %s' % qn)
+
+
+def _all_body_paths(ev):
+    for bp in ev[4]:
+        yield bp, ev
+        for e2 in bp.trace:
+            if e2[0] == 'loop':
+                for x in _all_body_paths(e2):
+                    yield x
+
+
+def binding_rules(ctx):
+    prog = ctx.prog
+    lookup_continues(ctx, 'C10.D6', 'objects.DBusObject._searchCache', 3)
+    fi = prog.func('objects.DBusObject.executeMethod')
+    ps = fi.params()
+    mname, margs, sender = ('param', ps[2]), ('param', ps[3]), \
+        ('param', ps[4])
+    it = Interp(prog, exc_edges=False)
+    n = 0
+    for p in it.run(fi):
+        if p.outcome == 'raise':
+            ok = kind(p.value) in ('builtin', 'call') and \
+                'NotImplementedError' in term_str(p.value)
+            ctx.ob('C10.D6', fi.qualname, 'unbound-raises-NotImplemented',
+                   ok, 'an unbound member must raise NotImplementedError '
+                   '(turned into an error reply by the dispatcher)',
+                   nontrivial=False)
+            continue
+        if p.outcome != 'return':
+            ctx.ob('C10.D6', fi.qualname, 'returns-result', False,
+                   'executeMethod must return the implementation\'s result')
+            continue
+        v = p.value
+        n += 1
+        inv = [c for c in p.calls() if c == v]
+        okc = kind(v) == 'call' and len(inv) == 1
+        # implementation term: getattr(self, 'dbus_' + name) or decorated
+        m = v[2] if kind(v) == 'call' else None
+        src_ok = m is not None and (
+            (kind(m) == 'call' and m[1] == 'getattr' and len(m[3]) >= 2 and
+             m[3][1] == ('binop', '+', C('dbus_'), mname)) or
+            (kind(m) == 'call' and (m[1] or '').endswith(
+                '._getDecoratedMethod') and len(m[3]) == 2 and
+             m[3][1] == mname and kind(m[3][0]) == 'attr' and
+             m[3][0][2] == 'name'))
+        ctx.ob('C10.D6', fi.qualname, 'invokes-bound-implementation',
+               okc and src_ok, 'the value returned must be one invocation '
+               'of dbus_<member> or of the decorated method bound to '
+               '(interface, member); returns %s' % term_str(v)[:100])
+        if not (okc and src_ok):
+            continue
+        args, kw = v[3], dict(v[4])
+        has_args = margs in p.state.truthy
+        ok = (args == (('splice', margs),)) if has_args else args == ()
+        ctx.ob('C10.D6', fi.qualname, 'passes-decoded-arguments', ok,
+               'the implementation must receive exactly the decoded '
+               'arguments; receives %s' % [term_str(a)[:40] for a in args])
+        wants = ('attr', m, '_dbusCaller')
+        w = True if wants in p.state.truthy else (
+            False if wants in p.state.falsy else None)
+        ok = (w is True and kw == {'dbusCaller': sender}) or \
+            (w is False and kw == {})
+        ctx.ob('C10.D6', fi.qualname, 'caller-iff-asked', ok,
+               'dbusCaller=<sender> must be passed exactly when the '
+               'implementation asks for it (_dbusCaller); keywords %s on a '
+               'path where _dbusCaller is %s' % (sorted(kw), w))
+    if n < 4:
+        raise AnalysisError('executeMethod: only %d invoking path(s)' % n)
